@@ -30,3 +30,20 @@ func (ab *AccessBarrier) VerifState() (int32, uint64, uint64, int32, int64, int6
 
 func (bs *BarrierSession) VerifLive() int32   { return *bs.liveCount }
 func (bs *BarrierSession) VerifSeqno() uint64 { return bs.seqno }
+
+// VerifQueue returns the seqnos of the sessions waiting in the free queue, in order.
+func (ab *AccessBarrier) VerifQueue() []uint64 {
+	var out []uint64
+	if ab.freeq == nil {
+		return out
+	}
+	n, _ := ab.freeq.head.getNext(0)
+	for n != ab.freeq.tail && n != nil {
+		next, del := n.getNext(0)
+		if !del {
+			out = append(out, (*BarrierSession)(n.Item()).seqno)
+		}
+		n = next
+	}
+	return out
+}
